@@ -42,28 +42,29 @@ type phaseRec struct {
 }
 
 type handRec struct {
-	k            int
-	openSeq      int64
-	openMs       int64
-	open         *pt.Table
-	roster       []string
-	seatOf       map[string]int
-	bankAtOpen   map[string]int64
-	firstGS      *pt.Table
-	firstGSSeq   int64
-	gameID       string
-	settled      *pt.Table
-	settledMs    int64
-	settledSeq   int64
-	actions      []actRec
-	phase        *phaseRec
-	lastEvent    string
-	eventsSeen   int
-	tainted      string // reason why liveness / accounting oracles are disarmed for this hand
-	gbsChecked   bool
-	stacksJudged bool
-	leftMidHand  bool
-	phaseFrom    int64
+	k                int
+	openSeq          int64
+	openMs           int64
+	open             *pt.Table
+	roster           []string
+	seatOf           map[string]int
+	bankAtOpen       map[string]int64
+	firstGS          *pt.Table
+	firstGSSeq       int64
+	gameID           string
+	settled          *pt.Table
+	settledMs        int64
+	settledSeq       int64
+	actions          []actRec
+	phase            *phaseRec
+	lastEvent        string
+	eventsSeen       int
+	tainted          string // reason why liveness / accounting oracles are disarmed for this hand
+	gbsChecked       bool
+	stacksJudged     bool
+	leftMidHand      bool
+	recordUnreliable bool // some call for this hand was not atomic: the harness record may lag the engine
+	phaseFrom        int64
 }
 
 type blindUpd struct {
@@ -89,16 +90,21 @@ type tableMon struct {
 	// ledger
 	in, out      int64
 	topups       []*topup
+	pendingTopup *topup
 	ledgerOff    string
 	lastAuditSum int64
 
-	blinds       []*blindUpd
-	initialBlind blindRec
-	extendInFlight bool
-	extendedKey  string
+	blinds             []*blindUpd
+	initialBlind       blindRec
+	extendInFlight     bool
+	extendedKey        string
 	anyNotAtomicAction bool
-	lastTurnKey  string
-	auditPrev    map[string]string
+	lastTurnKey        string
+	turnAt             int64
+	turnOK             bool
+	turnOpen           bool
+	turnDesc           string
+	auditPrev          map[string]string
 
 	// C08
 	lastSettledMs int64
@@ -117,6 +123,8 @@ type tableMon struct {
 	reserved            map[string]int
 	extTainted          string
 	leavers             map[string]bool
+	obligedOpen         bool // since the last settlement: >= 2 seated-in players with chips and no pause condition, continuously
+	obligedPause        bool // since the last settlement: pause condition, continuously
 }
 
 func newTableMon(w *tableWorld) *tableMon {
@@ -657,7 +665,7 @@ func (m *tableMon) checkLabels(h *handRec) {
 		if id, ok := dealtAt[sb]; ok {
 			for _, p := range st.PlayerStates {
 				if p.PlayerID == id && !hasStr(p.Positions, "sb") {
-					c.Viol("C06", "C06.labels_wrong", map[string]any{"kind": "sb"}, "hand %d: dealt-in player %s in the small-blind seat %d is labelled %v; all: %s", h.k, id, sb, p.Positions, playerLine(t))
+					c.Viol("C06", "C06.labels_wrong", map[string]any{"kind": "sb", "dealt_in_player_between_dealer_and_sb": irregularRing(t)}, "hand %d: dealt-in player %s in the small-blind seat %d is labelled %v; all: %s", h.k, id, sb, p.Positions, playerLine(t))
 					return
 				}
 			}
@@ -710,7 +718,8 @@ func (m *tableMon) onHandSnapshot(t *pt.Table, seq int64) {
 	// C02: roster stable
 	c.Judged("C02.roster_stable")
 	if r := rosterOf(t); fmt.Sprint(r) != fmt.Sprint(h.roster) {
-		c.Viol("C02", "C02.roster_changed", map[string]any{"dealt_in_player_left": h.leftMidHand || m.rosterLossExplained(h, r)}, "hand %d: player list was %v at open and is %v now (event %s)", h.k, h.roster, r, gs.Status.CurrentEvent)
+		gameStatus := st.Status == pt.TableStateStatus_TableGamePlaying || st.Status == pt.TableStateStatus_TableGameOpened
+		c.Viol("C02", "C02.roster_changed", map[string]any{"dealt_in_player_left": h.leftMidHand || m.rosterLossExplained(h, r), "table_status_is_a_hand_status": gameStatus}, "hand %d: player list was %v at open and is %v now (event %s, table status %s)", h.k, h.roster, r, gs.Status.CurrentEvent, st.Status)
 		return
 	}
 	if h.firstGS == nil {
@@ -813,7 +822,7 @@ func (m *tableMon) checkFirstState(h *handRec, t *pt.Table) {
 			sort.Strings(got)
 			sort.Strings(want)
 			if fmt.Sprint(got) != fmt.Sprint(want) {
-				c.Viol("C06", "C06.engine_labels_differ", nil, "hand %d: entry %d (%s) has labels %v on the table and %v in the hand engine", h.k, i, id, want, got)
+				c.Viol("C06", "C06.engine_labels_differ", map[string]any{"dealt_in_player_between_dealer_and_sb": irregularRing(h.open)}, "hand %d: entry %d (%s) has labels %v on the table and %v in the hand engine", h.k, i, id, want, got)
 				return
 			}
 		}
@@ -993,6 +1002,7 @@ func (m *tableMon) checkDeadline(h *handRec, t *pt.Table) {
 		return
 	}
 	if ev == "RoundClosed" {
+		m.closeTurn(h)
 		c.Judged("C15.cleared_on_round_close")
 		if st.CurrentActionEndAt != 0 && !m.extendInFlight {
 			c.Viol("C15", "C15.not_cleared", map[string]any{"when": "round_closed"}, "hand %d: action deadline is %d on the RoundClosed snapshot", h.k, st.CurrentActionEndAt)
@@ -1017,18 +1027,38 @@ func (m *tableMon) checkDeadline(h *handRec, t *pt.Table) {
 		return
 	}
 	tk := m.turnKey(gs) + fmt.Sprint(gs.UpdatedAt, len(p.AllowedActions))
-	if tk == m.lastTurnKey {
-		return // the same request re-published by an unrelated event
+	if tk != m.lastTurnKey {
+		m.closeTurn(h)
+		m.lastTurnKey = tk
+		m.turnAt = t.UpdateAt
+		m.turnOK = false
+		m.turnOpen = true
+		m.turnDesc = fmt.Sprintf("hand %d round %s player %d (allowed %v, asked at %d)", h.k, gs.Status.Round, cp, p.AllowedActions, t.UpdateAt)
 	}
-	m.lastTurnKey = tk
 	if m.extendInFlight || m.extendedKey == m.turnKey(gs) {
+		m.turnOK = true
 		return
 	}
+	// A snapshot published by a concurrent, unrelated event may show the request before the
+	// deadline has been written (0); what must never appear is a wrong deadline, and the right
+	// one must have been published before the turn is over.
+	want := m.turnAt + int64(t.Meta.ActionTime)
 	c.Judged("C15.deadline_on_request")
-	want := t.UpdateAt + int64(t.Meta.ActionTime)
-	if st.CurrentActionEndAt != want {
-		c.Viol("C15", "C15.deadline_wrong", nil, "hand %d round %s: player %d is asked at %d with action time %ds, published deadline is %d (expected %d)", h.k, gs.Status.Round, cp, t.UpdateAt, t.Meta.ActionTime, st.CurrentActionEndAt, want)
+	switch {
+	case st.CurrentActionEndAt == want:
+		m.turnOK = true
+	case st.CurrentActionEndAt != 0:
+		c.Viol("C15", "C15.deadline_wrong", nil, "%s: action time %ds, published deadline is %d (expected %d)", m.turnDesc, t.Meta.ActionTime, st.CurrentActionEndAt, want)
+	default:
+		c.Probe("request_published_before_deadline_written")
 	}
+}
+
+func (m *tableMon) closeTurn(h *handRec) {
+	if m.turnOpen && !m.turnOK && h != nil && h.tainted == "" {
+		m.c.Viol("C15", "C15.deadline_never_published", nil, "%s: the turn ended without the action deadline having been published", m.turnDesc)
+	}
+	m.turnOpen = false
 }
 
 func (m *tableMon) turnKey(gs *pokerface.GameState) string {
@@ -1051,6 +1081,7 @@ func (m *tableMon) onSettled(t *pt.Table, seq int64) {
 	m.lastSettledMs = c.NowMs()
 	m.waitingNext = true
 	m.extraMs = 0
+	m.obligedOpen, m.obligedPause = m.continueConditions(t)
 	if h.phase != nil {
 		h.phase.closed = true
 	}
@@ -1161,7 +1192,8 @@ func (m *tableMon) onSettled(t *pt.Table, seq int64) {
 func (m *tableMon) checkStats(h *handRec, t *pt.Table) {
 	c := m.c
 	st := t.State
-	if m.anyNotAtomicAction {
+	if h.recordUnreliable {
+		c.Inconc("c14_record_unreliable")
 		return
 	}
 	c.Judged("C14.settlement")
@@ -1270,5 +1302,45 @@ func (m *tableMon) collectAnswers(h *handRec, ph *phaseRec) {
 		} else if a.evKey == "?" && a.atMs >= ph.from {
 			ph.maybe[a.id] = true
 		}
+	}
+}
+
+// continueConditions evaluates the premises of C08 on a table value.
+func (m *tableMon) continueConditions(t *pt.Table) (open bool, pause bool) {
+	live, alive := 0, 0
+	for _, p := range t.State.PlayerStates {
+		if p.Bankroll > 0 {
+			alive++
+			if p.IsIn {
+				live++
+			}
+		}
+	}
+	pause = t.State.BlindState.Level == -1 || alive < t.Meta.TableMinPlayerCount
+	open = !pause && live >= 2 && t.State.BlindState.Level != 0
+	return
+}
+
+// irregularRing: a dealt-in player sits strictly between the dealer seat and the small-blind seat
+// (possible after dead-button rotations when a player becomes live there).
+func irregularRing(t *pt.Table) bool {
+	st := t.State
+	n := t.Meta.TableMaxSeatCount
+	if st.CurrentDealerSeat == st.CurrentSBSeat {
+		return false
+	}
+	for _, p := range st.PlayerStates {
+		if p.IsParticipated && cwBetween(st.CurrentDealerSeat, st.CurrentSBSeat, p.Seat, n) {
+			return true
+		}
+	}
+	return false
+}
+
+// slowness: injected delay (slow subscriber / slow backend) that the time bounds must allow for.
+func (m *tableMon) slowness(ms int64) {
+	m.extraMs += ms
+	if m.cur != nil && m.cur.phase != nil && !m.cur.phase.closed {
+		m.cur.phase.allowMs += ms
 	}
 }
